@@ -131,6 +131,23 @@ def h_retransmit_and_cancel(ctx, mode):
     verdict(ctx, w, "retransmit+cancel")
 
 
+def h_dest_open(ctx, N, mode):
+    """receiver alone under the monitor: every event sequence incl. cancel with disposition"""
+    from vf import hdst
+    w = World(ctx)
+    m = ACK if mode == "ack" else UNACK
+    with Monitor():
+        sc = hdst.DstScenario(ctx, w, mode=m, cktype=ChecksumType.CRC_32, closure=bool(ctx.choice("closure", 2)),
+                              rig_kwargs={"disposition": bool(ctx.choice("disposition", 2))})
+        alphabet = ["MD", "FD", "EOF", "EOFC", "TICK", "CANCEL"]
+        for i in range(N):
+            o = sc.step(alphabet)
+            hdst.end_if_other_property(ctx, o)
+            if any(c[0] == "delete" for c in o.fs):
+                ctx.covered("file_discarded")
+    verdict(ctx, w, "receiver sequence")
+
+
 def plan(tier):
     q = tier == "quick"
     specs = []
@@ -138,13 +155,16 @@ def plan(tier):
         specs.append(Spec(f"transfer/M={m}/K={k}", "vf.harness.c16:h_transfer", {"M": m, "K": k}, twin_share=0.02,
                           obligations=["transfer_done"]))
     for mode in ("ack", "unack"):
+        specs.append(Spec(f"receiver-open/{mode}/N={4 if q else 5}", "vf.harness.c16:h_dest_open",
+                          {"N": 4 if q else 5, "mode": mode}, twin_share=0.02, obligations=["file_discarded"]))
+    for mode in ("ack", "unack"):
         specs.append(Spec(f"retransmit-and-cancel/{mode}", "vf.harness.c16:h_retransmit_and_cancel", {"mode": mode},
                           twin_share=0.2, obligations=["cancel_checksum"]))
     return specs
 
 
 BOUNDS = {
-    "quick": "closed-loop transfers of C02/C03 shape over purely in-memory filestores whose paths (/src/..., /dst/...) do not exist on the host: M=2 fault-free (both modes, closure, CRC-32 and modular checksum, NAK modes, three destination shapes) and M=1 with one link fault; sender scenario with NAK retransmission (symbolic request) and cancel request (prefix checksum) in both modes",
+    "quick": "closed-loop transfers of C02/C03 shape over purely in-memory filestores whose paths (/src/..., /dst/...) do not exist on the host: M=2 fault-free (both modes, closure, CRC-32 and modular checksum, NAK modes, three destination shapes) and M=1 with one link fault; sender scenario with NAK retransmission (symbolic request) and cancel request (prefix checksum) in both modes; receiver alone on every sequence of N=4 events incl. cancel request / EOF(cancel) with disposition on cancellation on and off",
     "thorough": "adds M=2/K=1 and M=1/K=2",
 }
 OUTSIDE = "the sentence 'behaves exactly like the same transfer on the native filestore' is covered only indirectly: the in-memory transfer must succeed with an identical file and the native filestore is checked against its reference model in C17; a differential run native vs in-memory is not built"
